@@ -143,6 +143,19 @@ func runC06(seed int64, n int, dir string, tier string) *Report {
 			}
 			out := buf.Bytes()
 			probe("writer-output", out, f, true)
+			// other layouts of the same JSON value: whitespace everywhere JSON allows it (before the
+			// first brace and after the last included), members in another order, escaped spellings
+			if alt, ok := g.Relayout(out, false, nil); ok {
+				probe("relayout-whitespace-order", alt, f, true)
+			}
+			if alt, ok := g.Relayout(out, true, nil); ok {
+				probe("relayout-escapes", alt, f, true)
+			}
+			for _, lead := range []string{" ", "\n", "\t", "\r\n  "} {
+				if i%4 == 0 {
+					probe("leading-whitespace", append([]byte(lead), out...), f, true)
+				}
+			}
 			if i%3 == 0 {
 				var anyv any
 				if json.Unmarshal(out, &anyv) == nil {
